@@ -65,3 +65,8 @@ def _canon(v) -> str:
     if isinstance(v, bool) or v is None or isinstance(v, (int, str, bytes)):
         return type(v).__name__[0] + repr(v)
     return type(v).__name__ + repr(v)
+
+
+def reg_call(ka, kb, other=0):
+    """Task for the registration-concurrency histories (two key arguments, one non-key argument)."""
+    return (ka, kb, other)
